@@ -383,7 +383,7 @@ def _explain(src, log, comment, dead_model=False):
                 exp_quoted = exp_src[:1] in ('"', "'")
             else:
                 exp_src = src[t.start:t.end]
-                exp_quoted = not t.first_naked
+                exp_quoted = not t.all_naked
             exp = [exp_quoted, t.string, exp_src]
             if rec['head'] != exp:
                 return {'step': i, 'what': 'head token [is_quoted, string, source_string]', 'observed': rec['head'],
